@@ -404,10 +404,14 @@ def c30():
 def setup():
     """MANIFEST.setup_cmd: pre-build every configuration used by the quick tier, then the rest."""
     import subprocess
+    import os
     cfgs = set()
+    everything = os.environ.get("VERIF_SETUP_ALL") == "1"
     for pid, fn in CHECKS.items():
         for leg in fn().legs:
-            if leg.config:
+            # the quick tier's configurations; sanitizer / Miri configurations of the thorough tier
+            # are built on first use (VERIF_SETUP_ALL=1 pre-builds them too)
+            if leg.config and (everything or "quick" in leg.tiers):
                 cfgs.add(leg.config)
     order = sorted(cfgs, key=lambda c: (c.startswith("miri"), c.startswith("asan"), c))
     rc = 0
